@@ -109,6 +109,7 @@ enum onetbb_verif_id {
     vp_cq_pop_ticket             = 133, // pop ticket taken
     vp_cq_item_written           = 134, // push: item constructed, not yet published (mask bit / tail counter)
     vp_cq_alloc_failed           = 135, // push: page allocation threw, lane not yet invalidated
+    vp_cq_try_push_window        = 136, // bounded try_push: room seen for the ticket, slot not yet claimed (between the head read and the tail CAS)
     // --- hash map ---
     vp_chm_rehash_bucket         = 140,
     vp_chm_mask_race             = 141, // arg: 1 restarted
